@@ -73,3 +73,61 @@ theorem prefix_victims_top (total : ∀ a b, ge a b = true ∨ ge b a = true) (t
   exact (List.pairwise_append.mp hs).2.2 v hv w hw
 
 end Eudoxia.SortP
+
+namespace Eudoxia.SortP
+variable {α : Type} (ge : α → α → Bool)
+
+/-- sortedness when the comparison is transitive only through elements satisfying `P` (here: positive allocation) -/
+theorem insertDesc_sorted_on (P : α → Prop) (total : ∀ a b, ge a b = true ∨ ge b a = true)
+    (trans : ∀ a b c, P b → ge a b = true → ge b c = true → ge a c = true) (x : α) (l : List α)
+    (hP : ∀ a ∈ l, P a) (h : l.Pairwise (fun a b => ge a b = true)) :
+    (insertDesc ge x l).Pairwise (fun a b => ge a b = true) := by
+  induction l with
+  | nil => simp [insertDesc]
+  | cons y ys ih =>
+    rw [List.pairwise_cons] at h
+    unfold insertDesc
+    split
+    · rename_i hyx
+      rw [List.pairwise_cons]
+      refine ⟨?_, ih (fun a ha => hP a (by simp [ha])) h.2⟩
+      intro z hz
+      have := (insertDesc_perm ge x ys).mem_iff.mp hz
+      rw [List.mem_cons] at this
+      rcases this with rfl | hz'
+      · exact hyx
+      · exact h.1 z hz'
+    · rename_i hyx
+      have hxy : ge x y = true := by
+        rcases total y x with h1 | h1
+        · exact absurd h1 hyx
+        · exact h1
+      rw [List.pairwise_cons]
+      refine ⟨?_, List.pairwise_cons.mpr h⟩
+      intro z hz
+      rw [List.mem_cons] at hz
+      rcases hz with rfl | hz
+      · exact hxy
+      · exact trans x y z (hP y (by simp)) hxy (h.1 z hz)
+
+theorem foldl_insert_sorted_on (P : α → Prop) (total : ∀ a b, ge a b = true ∨ ge b a = true)
+    (trans : ∀ a b c, P b → ge a b = true → ge b c = true → ge a c = true) (l acc : List α)
+    (hl : ∀ a ∈ l, P a) (hacc : ∀ a ∈ acc, P a) (h : acc.Pairwise (fun a b => ge a b = true)) :
+    (l.foldl (fun acc x => insertDesc ge x acc) acc).Pairwise (fun a b => ge a b = true) := by
+  induction l generalizing acc with
+  | nil => simpa
+  | cons x xs ih =>
+    apply ih _ (fun a ha => hl a (by simp [ha]))
+    · intro a ha
+      have := (insertDesc_perm ge x acc).mem_iff.mp ha
+      rcases List.mem_cons.mp this with rfl | h'
+      · exact hl _ (by simp)
+      · exact hacc a h'
+    · exact insertDesc_sorted_on ge P total trans x acc hacc h
+
+theorem sortDesc_sorted_on (P : α → Prop) (total : ∀ a b, ge a b = true ∨ ge b a = true)
+    (trans : ∀ a b c, P b → ge a b = true → ge b c = true → ge a c = true) (l : List α) (hl : ∀ a ∈ l, P a) :
+    (sortDesc ge l).Pairwise (fun a b => ge a b = true) :=
+  foldl_insert_sorted_on ge P total trans l [] hl (by simp) List.Pairwise.nil
+
+end Eudoxia.SortP
